@@ -236,7 +236,7 @@ def apply_limit(sa, stmt, case, n, params, embed=False):
         stop = start + (lim if lim is not None else 7)
         return stmt.slice(start, stop), start, stop - start
     if api == "slice_rev":
-        # pinned-only (known finding): slice(start, stop) with stop < start is documented to behave like range(): empty
+        # (repaired in /repo, generated again in sub live): slice(start, stop) with stop < start is documented to behave like range(): empty
         start = (off or 0) + 2
         return stmt.slice(start, start - 1), start, 0
     lc = None if lim is None else clause_for(sa, case["limit"], lim, "lim_p", params, embed)
@@ -919,7 +919,7 @@ _COMPOUND_LEGACY_EXCLUDED = True
 
 def subs(tier):
     return [
-        Generated("live", check_live, strategy=base_cases(), quick=5000, thorough=150000),
+        Generated("live", check_live, strategy=base_cases(apis=("limit_offset", "offset_limit", "slice", "reset", "pre_slice", "slice_rev", "limit_offset", "slice")), quick=5000, thorough=150000),
         Generated("query", check_query, strategy=query_cases, quick=2500, thorough=60000),
         Generated("emu_mssql", check_emu_mssql, strategy=base_cases(shapes=[s for s in SHAPES if s != "union"]), quick=3500, thorough=100000),
         Generated("emu_oracle", check_emu_oracle, strategy=base_cases(shapes=[s for s in SHAPES if s != "union"]), quick=3500, thorough=100000),
